@@ -78,7 +78,7 @@ def cfg(**kw):
 def stage1(plans, workers_each=None):
     """plans: list of (name, cfg kwargs, expectation) with expectation None (must hold) or a set of clause names
     (TLC must report a violation and it must be one of them)."""
-    par = 1 if JOBS <= 4 else min(len(plans), 3)             # concurrent JVMs
+    par = 1 if JOBS <= 4 else min(len(plans), max(3, JOBS // 2))   # concurrent JVMs
     workers_each = workers_each or max(1, JOBS // par)
 
     def one(p):
@@ -122,9 +122,9 @@ def account_stage1(rep, outs):
 _PRE = '<<"SC", "'
 
 
-def emit(kw, workers=8, kds=("NoDefects", "AllDefects")):
+def emit(kw, workers=8, kds=("NoDefects", "AsIs")):
     """Run the emission configuration once per KnownDefects setting and merge: the repaired design ({}) and the code
-    as it is (all named deviations).  An observation sequence of the real code that lies in neither set is
+    as it is (MC_Body!AsIs: the recorded deviations F2, F4).  An observation sequence of the real code that lies in neither set is
     MODEL-DRIFT.  Returns (TLCResult of the first run, groups, number of behaviours) where groups maps
     (framing, coding, stacked, decode, enc, chunks, dmgkind, dmgat, ops) -> {"cls", "allowed": set of obs tuples}."""
     groups = {}
@@ -380,12 +380,11 @@ def signature(run, trace, badl, clause, fin):
     if clause == "CutNeverComplete" and f["framing"] == "cl" and e and e["op"] == "read1" and e["end"]:
         sig = "read1-without-amount-at-cut-content-length"
     if clause == "UndecodableRaises" and f["strict"] and f["indep"] == "incomplete" and e and e["end"] and not e["err"]:
-        zfirst = layers[0].startswith("zstd")
-        if len(layers) > 1 and not zfirst:
-            sig = "stacked-coding-zstd-not-first-listed"
         # the calls that meet EOF with an empty decoded buffer: sized reads, the read(amt) loop behind stream() /
-        # iteration on bodies that are not chunked, and read() only when nothing at all was left to read
-        elif e["op"] in ("readn", "readinto") or (e["op"] in ("stream", "iter") and f["framing"] != "chunked") \
+        # iteration on bodies that are not chunked, and read() only when nothing at all was left to read.  Any coding
+        # (stack) with a zstd layer: with MultiDecoder.flush() repaired (F3) the stacks fail by this mechanism only;
+        # a stack that also ends normally for read() / read1() / preload is NOT this finding.
+        if e["op"] in ("readn", "readinto") or (e["op"] in ("stream", "iter") and f["framing"] != "chunked") \
                 or (e["op"] == "read" and e["len"] == 0 and badl > 1):
             sig = "zstd-incomplete-eof-reached-without-flush"
     if clause == "ok" and fin == "ConnNotReused":
